@@ -779,6 +779,18 @@ pub fn ddl(depth: usize) -> Value {
     let seqs: Vec<Vec<D>> = seqs.into_iter().filter(|s| s.contains(&D::Reopen)).collect();
     let stride = (seqs.len() / match depth { 0 | 1 => 30, 2 => 200, _ => usize::MAX }).max(1);
     let e = Engine::Disk { block: 64, rowset: 1 };
+    // statements that may be refused, but must never leave a log that cannot be replayed
+    for odd in ["create table bad(_rowid_ int)", "create table bad(a int, a int)", "create table d0(z int)", "drop table nosuch", "drop table d0, d0", "insert into d0 values (1)", "create table bad(a int primary key, b int primary key)"] {
+        let sqls: Vec<String> = vec!["create table d0(k int primary key, v int)".into(), "insert into d0 values (1,1)".into(), odd.into(), "select k, v from d0".into()];
+        tried += 4;
+        match run(e, &sqls, &[3]) {
+            Ok(outs) => match &outs[3] {
+                Ok(rows) if *rows == vec![vec!["1".to_string(), "1".to_string()]] => {}
+                other => { if let Some(v) = found(tried, e, &sqls, &[3], 3, "table d0 = [[1, 1]] after the reopen".into(), format!("{other:?}")) { return v; } }
+            },
+            Err(err) => return found_raw(tried, e, &sqls, &[3], 3, "the database to reopen after the (possibly refused) statement".into(), err),
+        }
+    }
     for (si, s) in seqs.iter().enumerate() {
         if si % stride != 0 { continue; }
         let mut sqls: Vec<String> = vec![];
